@@ -162,7 +162,30 @@ pub fn build(bytes: &[u8]) -> Built {
     let line_of = |t: &str| t.matches('\n').count() + 1;
     let line;
     let mut class = class;
-    match c.below(9) {
+    match c.below(10) {
+        9 => {
+            // unbounded recursion: the failing instruction is the recursive call (or a push on its line) deep inside,
+            // not the definition's first line and not the top-level call
+            ctx = "function";
+            class = "stack-overflow";
+            let (params, arg, call0) = [("", "", ""), ("n", "n + 1", "0"), ("a, b", "b, a", "1, 2")][c.below(3)];
+            text.push_str(&format!("fn rec({}) {{\n", params));
+            for _ in 0..c.below(3) {
+                text.push_str("\n");
+            }
+            line = line_of(&text);
+            let body = match c.below(3) {
+                0 => format!("  rec({})\n", arg),
+                1 => format!("  1 + rec({})\n", arg),
+                _ => format!("  return rec({});\n", arg),
+            };
+            text.push_str(&body);
+            text.push_str("}\n");
+            for _ in 0..c.below(4) {
+                text.push_str("# gap\n");
+            }
+            text.push_str(&format!("rec({});\n", call0));
+        }
         8 => {
             // the failing operator is the range test of one arm of a match laid out over several lines
             ctx = "match-range-arm";
